@@ -133,7 +133,9 @@ class DistributedNetwork(BaseManager):
             * level = level parent advertised + 1
             * root = whatever our parent sent us initially
         """
-        username = self._session.user.name  # type: ignore[union-attr]
+        # The username from the settings: branch values are also sent to the
+        # children when there is no session (server connection lost)
+        username = self._settings.credentials.username
         if self.parent:
             # We are the branch root
             if self.parent.branch_root == username:
@@ -232,12 +234,12 @@ class DistributedNetwork(BaseManager):
 
         self.parent = None
 
-        if not self._session:
-            logger.warning("not advertising branch levels : session is destroyed")
-            return
+        if self._session:
+            await self._notify_server_of_parent()
+        else:
+            logger.warning("not advertising branch levels to server : session is destroyed")
 
-        username = self._session.user.name
-        await self._notify_server_of_parent()
+        username = self._settings.credentials.username
 
         # TODO: What happens to the children when we lose our parent is still
         # unclear
